@@ -119,3 +119,7 @@ package deps
 //@ # json.Unmarshal into the object reflect.New has just allocated: nothing that existed before is written
 //@ trusted func json.UnmarshalFresh(data []byte, v interface{}) (err error)
 //@   modifies alloc
+//@ trusted func (m encoding.BinaryMarshaler) MarshalBinary() (data []byte, err error)
+//@   modifies alloc
+//@ trusted func (u encoding.BinaryUnmarshaler) UnmarshalBinary(data []byte) (err error)
+//@   modifies alloc
